@@ -174,12 +174,18 @@ def run(tier, seed):
                                   inplace=False, wrote=b is not None, needfile=mode in ("o", "b"), rng=0, rand=0, len=len(b or b"")))
         # metadata triplets: one key per (doc, query), three families
         msegs = []
-        for d in dpool:
-            s = ["seg\tmeta", line("src", d, sx(dpool[d]))]
+        # metadata blocks in every line-ending spelling and shape (these are asked through the metadata families only)
+        mb = "Title: Demo title\nAuthor: Some One\nDate: 2020-01-02\nAbstract: first line\n    continued here\nLast: z\n\n# Head #\n\nBody text.\n"
+        mpool = dict(dpool)
+        mpool.update({"m_lf": mb.encode(), "m_crlf": mb.replace("\n", "\r\n").encode(), "m_cr": mb.replace("\n", "\r").encode(),
+                      "m_yaml": ("---\n" + mb.replace("\n\n# Head", "\n---\n\n# Head", 1)).encode(), "m_yaml_crlf": ("---\n" + mb.replace("\n\n# Head", "\n---\n\n# Head", 1)).replace("\n", "\r\n").encode(),
+                      "m_noend": b"Title: only\nAuthor: block", "m_one": b"Title: one line\r\n\r\nbody\r\n", "m_blankws": b"Title: t\nAuthor: a\n \t\nbody\n"})
+        for d in mpool:
+            s = ["seg\tmeta", line("src", d, sx(mpool[d]))]
             for fam in ("s", "d", "e"):
-                s += [line("meta", fam, d, "has"), line("meta", fam, d, "keys"), line("meta", fam, d, "val", sx("title")), line("meta", fam, d, "val", sx("Author")), line("meta", fam, d, "val", sx("nokey"))]
+                s += [line("meta", fam, d, "has"), line("meta", fam, d, "keys"), line("meta", fam, d, "val", sx("title")), line("meta", fam, d, "val", sx("Author")), line("meta", fam, d, "val", sx("nokey")), line("meta", fam, d, "val", sx("abstract")), line("meta", fam, d, "val", sx("last"))]
             # the engine variants on ONE engine object: asked twice, and again after a parse and after a conversion
-            q = [line("e_meta", 0, "has"), line("e_meta", 0, "keys"), line("e_meta", 0, "val", sx("title")), line("e_meta", 0, "val", sx("Author")), line("e_meta", 0, "val", sx("nokey"))]
+            q = [line("e_meta", 0, "has"), line("e_meta", 0, "keys"), line("e_meta", 0, "val", sx("title")), line("e_meta", 0, "val", sx("Author")), line("e_meta", 0, "val", sx("nokey")), line("e_meta", 0, "val", sx("abstract")), line("e_meta", 0, "val", sx("last"))]
             s += [line("e_new", 0, d, CLISTD & ~E["TRANSCLUDE"], 0)] + q + q + [line("e_parse", 0)] + q + [line("e_conv", 0, docs.FMT["html"])] + q + [line("e_free", 0)]
             # a key is added: the string family on the new text is the reference; engines that were never parsed / parsed / converted before the update must
             # answer the same -- asked for the keys FIRST (the has-metadata query re-scans and would hide a stale answer)
@@ -190,7 +196,7 @@ def run(tier, seed):
                 s += [line("e_new", 0, d, CLISTD & ~E["TRANSCLUDE"], 0)] + pre + [line("e_meta", 0, "upd", sx("Revision"), sx("7 b"))] + qe + [line("e_free", 0)]
             msegs.append(s)
         mres = run_harness(exe, msegs)
-        for d, r in zip(dpool, mres):
+        for d, r in zip(mpool, mres):
             if r["status"] != "ok":
                 problems.append(("crash", (d, "meta", ""), r)); continue
             trace.append(dict(e="reset"))
